@@ -130,7 +130,12 @@ static int init_websocket_peer(struct websocket_peer *ws_peer, struct http_conne
 {
 	static const char *sub_protocol = "jet";
 
-	init_peer(&ws_peer->peer, is_local_connection, connection->server->ev.loop);
+	if (unlikely(init_peer(&ws_peer->peer, is_local_connection, connection->server->ev.loop) < 0)) {
+		/* nothing refers to the peer yet */
+		connection->parser.data = NULL;
+		cjet_free(ws_peer);
+		return -1;
+	}
 	ws_peer->peer.send_message = ws_send_message;
 	ws_peer->peer.close = peer_close_websocket_peer;
 
